@@ -165,19 +165,27 @@ func RunDriver(p Property, o DriverOpts) int {
 	if cb, ok := p.(interface{ CPUBudget() float64 }); ok {
 		cpuBudget = cb.CPUBudget()
 	}
-	if race {
-		cpuBudget *= 10
-	}
 
-	states := make([]*workerState, K)
+	// an extra worker that re-runs a strided sample of the cases under the race detector
+	sampleStride := 0
+	if rs, ok := p.(interface{ RaceSample(tier string) int }); ok && o.RaceBin != "" && o.Only < 0 {
+		sampleStride = rs.RaceSample(o.Tier)
+	}
+	KK := K
+	if sampleStride > 0 {
+		KK = K + 1
+	}
+	anyRace := race || sampleStride > 0
+	states := make([]*workerState, KK)
 	var wg sync.WaitGroup
-	for k := 0; k < K; k++ {
+	for k := 0; k < KK; k++ {
 		ws := &workerState{k: k}
 		states[k] = ws
 		wg.Add(1)
 		go func(k int) {
 			defer wg.Done()
 			start := from + k
+			stride := stride
 			marker := filepath.Join(workDir, fmt.Sprintf("w%d.marker", k))
 			outp := filepath.Join(workDir, fmt.Sprintf("w%d.out", k))
 			wbin, wrace := bin, race
@@ -185,6 +193,13 @@ func RunDriver(p Property, o DriverOpts) int {
 				if !rw.RaceWorker(k, K) {
 					wbin, wrace = o.SelfBin, false
 				}
+			}
+			if k == K { // the race sampler
+				start, stride, wbin, wrace = from, sampleStride, o.RaceBin, true
+			}
+			cpuBudget := cpuBudget
+			if wrace {
+				cpuBudget *= 10
 			}
 			for start < to {
 				os.Remove(marker)
@@ -298,7 +313,7 @@ func RunDriver(p Property, o DriverOpts) int {
 	var viols []Violation
 	var samples []interface{}
 	var inconcl []string
-	for k := 0; k < K; k++ {
+	for k := 0; k < KK; k++ {
 		ws := states[k]
 		if ws.frameworkE != "" {
 			fmt.Printf("FRAMEWORK-ERROR property=%s %s\n", id, ws.frameworkE)
@@ -350,6 +365,9 @@ func RunDriver(p Property, o DriverOpts) int {
 	}
 	if total.Obs == nil {
 		total.Obs = map[string]int64{}
+	}
+	if anyRace {
+		viols = append(viols, RaceViolations(id, workDir, total.Obs)...)
 	}
 	if fin, ok := p.(Finisher); ok {
 		viols = append(viols, fin.Finish(&DriverInfo{WorkDir: workDir, Tier: o.Tier, Seed: o.Seed, Obs: total.Obs})...)
@@ -432,7 +450,7 @@ func RunDriver(p Property, o DriverOpts) int {
 			}
 		}
 	}
-	if o.Only < 0 && total.Cases < n && len(inconcl) == 0 && len(unmatched) == 0 {
+	if o.Only < 0 && total.Cases < n && countCrashes(states) == 0 && len(inconcl) == 0 && len(unmatched) == 0 {
 		inconcl = append(inconcl, fmt.Sprintf("only %d of %d cases were executed", total.Cases, n))
 	}
 
@@ -452,7 +470,7 @@ func RunDriver(p Property, o DriverOpts) int {
 		"exhaustive":          p.Exhaustive(),
 		"outcome_classes":     total.Classes,
 		"observations":        total.Obs,
-		"workers":             K,
+		"workers":             KK,
 		"race_build":          race,
 		"process_deaths":      countCrashes(states),
 		"known_findings_hit":  len(viols) - len(unmatched),
